@@ -57,7 +57,10 @@ def replay_history(case) -> List[Tuple[str, str]]:
         # run_turn creates one), so busting applies to it under either value: toggled between turns
         cfg_on_nocache = E.validated_cfg(E.deep_merge(base, {"t4": {"cache": {"enabled": False}}}))
         cfg_off = E.validated_cfg(E.deep_merge(base, {"t4": {"enabled": False}}))
-        store = E.RecordingStore()
+        # every third case uses a store with the optional hooks: falsy while empty (__len__) and export_state(), which
+        # raises in every sixth case (a store error inside the snapshot writer must not abort the turn either)
+        sk = case.get("storekind", 0)
+        store = E.RecordingStore() if sk == 0 else E.ExportingStore(export_raises=(sk == 2))
         state = E.mk_state(E.DEFAULT_GRAPHS, [], store=None)
         store.inner = state["store"]
         store.noop_ids = {DELTA_IDS[max(consts["Deltas"])]}     # a successful call may report fewer edits than deltas
@@ -215,9 +218,9 @@ def check(run) -> None:
         res = run.tlc("ApplyCommit", cfg, name=f"ApplyCommit_c{cadence}_b{int(bust)}_n{len(ns)}_s{start}", workers=4, timeout_s=900)
         run.model_must_hold(res)
         for k, b in enumerate(res.emitted):
-            cases.append({"consts": consts, "h": b["h"], "variant": "apply", "workdir": run.workdir, "flip": len(cases) % 2, "cfgonly": (len(cases) // 2) % 2})
+            cases.append({"consts": consts, "h": b["h"], "variant": "apply", "workdir": run.workdir, "flip": len(cases) % 2, "cfgonly": (len(cases) // 2) % 2, "storekind": [0, 0, 0, 1, 0, 2][len(cases) % 6]})
             if k % (5 if q else 3) == 0 or any(s["kill"] for s in b["h"]) and k % 2 == 0:
-                cases.append({"consts": consts, "h": b["h"], "variant": "turn", "workdir": run.workdir, "flip": len(cases) % 2, "cfgonly": (len(cases) // 2) % 2})
+                cases.append({"consts": consts, "h": b["h"], "variant": "turn", "workdir": run.workdir, "flip": len(cases) % 2, "cfgonly": (len(cases) // 2) % 2, "storekind": [0, 0, 0, 1, 0, 2][len(cases) % 6]})
     outs = pmap(replay_history, cases, chunk=20)
     for c, fails in zip(cases, outs):
         run.traces += 1
